@@ -35,3 +35,40 @@ Example group_example :
   f_group 2 [mkrow 1 2 0 0; mkrow 3 4 1 0; mkrow 4 6 2 0; mkrow 9 15 4 0] =
   [mkrow 1 6 0 3; mkrow 9 15 4 1].
 Proof. reflexivity. Qed.
+
+(* ---- multi-output ---- *)
+From SV Require Import Proof.OverlapLists Proof.OverlapMulti.
+
+Lemma straddled_f_row h I x : straddled (f_row h I) x <-> exists r, In r I /\ straddles r x.
+Proof.
+  rewrite straddled_iff. unfold f_row. split.
+  - intros (o & Ho & Hs). apply in_map_iff in Ho as (r & <- & Hr). exists r. split; auto.
+  - intros (r & Hr & Hs). eexists. split; [apply in_map; exact Hr|exact Hs].
+Qed.
+
+(* outputs that all have one row per input row can be cut at the same times *)
+Lemma f_row_same_cuts (hs : list (row -> list row -> Z)) : same_cuts (map f_row hs).
+Proof.
+  intros f1 f2 I x H1 H2 _. apply in_map_iff in H1 as (h1 & <- & _). apply in_map_iff in H2 as (h2 & <- & _).
+  rewrite !straddled_f_row. tauto.
+Qed.
+
+(* the dual-output plugin of the harness: neighbour count and plain copy *)
+Theorem dual_count_copy_chunking_independent kl kr wtuple wl wr d1 k1 d2 k2 orun otgt sw R a b dt run cs :
+  0 <= kl -> 0 <= kr -> kl <= 2 * wl -> kr <= 2 * wr ->
+  dsp R -> chunking_of R a b dt run cs ->
+  let outs := [mk_ow_out (f_count kl kr) d1 k1; mk_ow_out f_copy d2 k2] in
+  exists items,
+    ow_iter (mk_ow_params wtuple wl wr outs orun otgt sw) cs = Ok items /\
+    forall k o, nth_error outs k = Some o ->
+      flat_map crows (out_stream k items) = oo_f o R /\
+      contiguous_from a (out_stream k items) /\ last_end a (out_stream k items) = b /\
+      Forall wf (out_stream k items).
+Proof.
+  intros Hkl Hkr H1 H2 HR Hch outs.
+  apply (overlap_multi_correct wtuple wl wr kl kr outs orun otgt sw R a b dt run cs); auto; try lia.
+  - intros o [<-|[<-|[]]]; cbn [oo_f].
+    + apply f_count_window_local; auto.
+    + eapply window_local_mono; [| |apply f_copy_window_local]; lia.
+  - apply (f_row_same_cuts [h_count kl kr; (fun r _ => re r - rt r)]).
+Qed.
